@@ -50,7 +50,7 @@ def gen_body(rng, n):
     for _ in range(n):
         r = rng.random()
         if r < 0.15:
-            p = rng.choice([k for k, v in c06.SHAPE.items() if v == "leaf" and k[-1] != "d" and not c06.in_mods_only(k)])
+            p = rng.choice([k for k, v in c06.SHAPE.items() if v == "leaf" and k[-1] != "d" and not c06.in_mods_only(k) and not any("_" in x for x in k)])
             var = "_".join(p).upper()
             if rng.random() < 0.7:
                 ops.append({"op": "SETENV", "var": var, "val": rng.choice(["0", "1", "7", "42"])})
@@ -248,6 +248,23 @@ def gen_session(rng, prepost=0.3):
             n = rng.choice(nodes)
             free = [x for x in TASK_NAMES + ["dup_b"] if x not in [t["name"] for t in n["tasks"]]]
             n["tasks"].append({"name": rng.choice(free), "aliases": [], "tag": tag})
+    eqpair = None
+    if rng.random() < 0.3:
+        # two sibling namespaces whose settings are EQUAL (==) but not identical: other key order, 0/1 <-> False/True
+        # (their merged settings then differ only in the TYPE of a value); their tasks run back to back below
+        parents = [(n, chain) for n, _, chain in walk(tree) if len(n["subs"]) >= 2]
+        if parents:
+            par, chain = rng.choice(parents)
+            n1, n2 = rng.sample(par["subs"], 2)
+            free = [k for k in [("c",), ("a", "c"), ("b", "c"), ("a", "a", "c"), ("b", "a")]
+                    if all(cfglib.get_path(c, list(k)) is cfglib.ABSENT for c in chain)]
+            if free:
+                k = rng.choice(free)
+                v = rng.choice([0, 1, True, False])
+                cfglib.set_total(n1["cfg"], list(k), v)
+                n2["cfg"] = c06.equal_variant(rng, n1["cfg"])
+                cfglib.set_total(n2["cfg"], list(k), (not isinstance(v, bool)) and bool(v) or (isinstance(v, bool) and int(v)))
+                eqpair = (n1, n2, k)
     twin = None
     if rng.random() < 0.3:
         # EQUAL-BUT-DISTINCT twin: a second Task object with the same name and the same function (wrapped twice /
@@ -339,6 +356,13 @@ def gen_session(rng, prepost=0.3):
             else:
                 k = rng.randint(0, len(calls[0]))
                 calls[0] = calls[0][:k] + pair + calls[0][k:]
+    if eqpair:
+        n1, n2, k = eqpair
+        pair = [rng.choice(names[rng.choice(n1["tasks"])["tag"]]), rng.choice(names[rng.choice(n2["tasks"])["tag"]])]
+        rng.shuffle(pair)
+        calls = [c for c in calls if c] or [[]]
+        i = rng.randint(0, len(calls[0]))
+        calls[0] = calls[0][:i] + pair + ([rng.choice(pair)] if rng.random() < 0.3 else []) + calls[0][i:]
     if twin:
         pair = [rng.choice(names[twin[2]]), rng.choice(names[twin[3]])]
         rng.shuffle(pair)
@@ -355,8 +379,10 @@ def gen_session(rng, prepost=0.3):
     env0 = {}
     if rng.random() < 0.5:
         for _ in range(rng.randint(1, 3)):
-            p = rng.choice([k for k, v in c06.SHAPE.items() if v == "leaf" and k[-1] != "d" and not c06.in_mods_only(k)])
+            p = rng.choice([k for k, v in c06.SHAPE.items() if v == "leaf" and k[-1] != "d" and not c06.in_mods_only(k) and not any("_" in x for x in k)])
             env0["_".join(p).upper()] = rng.choice(["0", "1", "7", "42"])
+    if eqpair and rng.random() < 0.6:
+        env0["_".join(eqpair[2]).upper()] = rng.choice(["7", "0", "1"])  # cast depends on the setting's current TYPE
     defaults = dict(copy.deepcopy(DEFAULTS), **c06.tree(rng, dens=0.4))
     flat = [resolve[n][0] for req in calls for n in req]
     if len(flat) >= 2 and rng.random() < 0.3:
@@ -635,7 +661,7 @@ def run(ctx):
     rng = ctx.rng
     drv = LeanDriver("drv_config")
     lines, rows_all, ran = [], [], []
-    for i in range(ctx.n(2600, 45000)):
+    for i in range(ctx.n(2300, 45000)):
         case = gen_session(rng, prepost=0.3 if i % 2 else 0.0)
         why, sig, ops, rows, record = check(case)
         bindings, res2, names, coll = index_tree(case["tree"])
@@ -655,6 +681,10 @@ def run(ctx):
                     x in case["bodies"][m]["pre"] + case["bodies"][m]["post"] for m in case["bodies"])]
                 out.hist["twin_sessions_both_twins_ran_unnamed"] += len(ran_unnamed) == 2
                 out.hist["twin_sessions_two_execute_calls"] += len(case["calls"]) > 1
+        cfgs_seen = [cfglib.canon(n["cfg"]) for n, _ in real_nodes(case["tree"]) if n["cfg"]]
+        raw = [n["cfg"] for n, _ in real_nodes(case["tree"]) if n["cfg"]]
+        out.hist["sessions_with_equal_but_not_identical_namespace_settings"] += any(
+            a == b and cfglib.canon(a) != cfglib.canon(b) for i, a in enumerate(raw) for b in raw[i + 1:])
         nm = sum(len(n.get("mounts", [])) for n, _ in real_nodes(case["tree"]))
         out.hist["sessions_with_collection_mounted_twice"] += nm > 0
         if nm:
